@@ -33,6 +33,7 @@ type Opts struct {
 	TrailingSpace  bool // blanks / tabs after `- statement` lines
 	Trailers       bool // Go code after the closing brace of a template, on the same line
 	MultiLineFrags bool // Go fragments containing a newline (finding C07/multiline)
+	SpaceIndent    bool // now and then a blank instead of the last tab of a line that is not deeper than the one before
 }
 
 type G struct {
@@ -546,6 +547,23 @@ func GenFile(r *rand.Rand, o Opts, nLayouts, nPages int) *File {
 	}
 	if o.VerbSpacing {
 		f.VerbStyle = g.R.Intn(4)
+	}
+	if o.SpaceIndent {
+		var mark func(ns []*Node)
+		mark = func(ns []*Node) {
+			for _, n := range ns {
+				if g.chance(6) {
+					n.SpaceIndent = true
+				}
+				for i := range n.Chain {
+					mark(n.Chain[i].Kids)
+				}
+				mark(n.Kids)
+			}
+		}
+		for _, t := range f.Templates {
+			mark(t.Body)
+		}
 	}
 	if o.TrailingSpace {
 		var pad func(ns []*Node)
